@@ -12,7 +12,7 @@ TNext == /\ l <= Len(Trace)
          /\ l' = l + 1
          /\ CASE Ev.e = "init"     -> Reset(Ev.ids, Ev.kinds, Ev.hasStopFn, Ev.panics, Ev.failing, Ev.backoffs, IF "dep" \in DOMAIN Ev THEN Ev.dep ELSE FALSE)
               [] Ev.e = "wbegin"   -> WBegin(Ev.i, Ev.ctxdone, Ev.t)
-              [] Ev.e = "wend"     -> WEnd(Ev.i, Ev.t)
+              [] Ev.e = "wend"     -> WEnd(Ev.i, Ev.ctxdone, Ev.t)
               [] Ev.e = "stopcall" -> StopCall(Ev.t)
               [] Ev.e = "fnbegin"  -> FnBegin(Ev.ctxdone, Ev.t)
               [] Ev.e = "fnend"    -> FnEnd(Ev.t)
